@@ -653,6 +653,9 @@ func (p *Program) Run() (returnModel Model, returnErr error) {
 	// Subscribe to user input.
 	if p.input != nil {
 		if err := p.initCancelReader(false); err != nil {
+			// The terminal has been initialized and the renderer started:
+			// undo that before giving up.
+			p.shutdown(true)
 			return model, err
 		}
 	}
